@@ -1,7 +1,7 @@
 (* C01, completeness layer: events, runs, and Spec.c01_dump on reachable states. *)
 From Coq Require Import Lia.
 From VF Require Export Sched.ProofsFull7.
-From VF Require Import Sched.ProofsLearner Sched.ProofsEnabled Sched.ProofsInflight Sched.ProofsObsC01.
+From VF Require Import Sched.Spec Sched.ProofsLearner Sched.ProofsEnabled Sched.ProofsInflight Sched.ProofsObsC01.
 Open Scope Z_scope.
 
 (* ---- the hypothesis on selector answers -------------------------------------------------------------------------------- *)
@@ -254,4 +254,65 @@ Lemma sched_exclusive : forall cfg t0 evs, selectors_in_range (init cfg t0) evs 
 Proof.
   intros cfg t0 evs Hsel. destruct (Cok_run evs (init cfg t0) Hsel (Cok_init cfg t0)) as [Hp|H]; [left; exact Hp|right].
   apply c01_dump_ok. apply Cok_C01F. exact H.
+Qed.
+
+(* ---- a decision procedure for the hypothesis (for concrete histories) ------------------------------------------------------ *)
+Definition ev_sel_okb (s : state) (e : event) : bool :=
+  match e with
+  | EStartExecute c a t =>
+    match longest_prefix_pq (enter t s) (x_plat a) (x_instance a) with
+    | Some p => Nat.ltb (fst (fst (fst (x_sel a)))) (List.length (p_scs p))
+    | None => true
+    end
+  | EStartSync c a t =>
+    negb (is_phantom (y_worker a)) &&
+    match y_state a with
+    | WCompleted d r =>
+      if resp_success r then
+        let s1 := enter t s in
+        match k_task (get_worker s1 (y_worker a)) with
+        | Some tk =>
+          match t_learner (get_task s1 tk) with
+          | Some l =>
+            match l_succ l with
+            | Some (bidx, _, _, _) =>
+              match get_pq s1 (sk_pk (task_scq s1 tk)) with
+              | Some p => Nat.ltb bidx (List.length (p_scs p))
+              | None => true
+              end
+            | None => true
+            end
+          | None => true
+          end
+        | None => true
+        end
+      else true
+    | _ => true
+    end
+  | EKillQueue c k code t => negb (code =? 0)%N
+  | EEnter c t => match get_call s c with PKillRecheck _ code => negb (code =? 0)%N | _ => true end
+  | _ => true
+  end.
+
+Lemma ev_sel_okb_sound : forall s e, ev_sel_okb s e = true -> ev_sel_ok s e.
+Proof.
+  intros s e H. destruct e; cbn [ev_sel_okb ev_sel_ok] in *; auto.
+  - intros p Ep. rewrite Ep in H. apply Nat.ltb_lt. exact H.
+  - apply andb_true_iff in H. destruct H as [H1 H2]. split; [apply negb_true_iff; exact H1|].
+    intros d r Ey. rewrite Ey in H2. unfold BG. intros Hr tk l bidx bdur btm bl p Hk Hl Hs Hp.
+    rewrite Hr in H2. cbv zeta in H2. rewrite Hk, Hl, Hs, Hp in H2. apply Nat.ltb_lt. exact H2.
+  - apply negb_true_iff in H. apply N.eqb_neq. exact H.
+  - intros name code Ec. rewrite Ec in H. apply negb_true_iff in H. apply N.eqb_neq. exact H.
+Qed.
+
+Fixpoint selectors_in_rangeb (s : state) (evs : list (event * list (nat * wref))) : bool :=
+  match evs with
+  | [] => true
+  | eh :: tl => ev_sel_okb (s <| s_hints := snd eh |> <| s_out := [] |>) (fst eh) && selectors_in_rangeb (fst (step s eh)) tl
+  end.
+
+Lemma selectors_in_rangeb_sound : forall evs s, selectors_in_rangeb s evs = true -> selectors_in_range s evs.
+Proof.
+  induction evs as [|eh evs IH]; intros s H; cbn in *; [exact I|].
+  apply andb_true_iff in H. destruct H as [H1 H2]. split; [apply ev_sel_okb_sound; exact H1|apply IH; exact H2].
 Qed.
